@@ -20,8 +20,8 @@ func init() {
 			return
 		}
 		runSeq(c, seqC05)
-	}, Config: seqOrLinConfig})
-	Register(&PropDef{ID: "C05b", Run: runC05b})
+	}, Config: seqOrLinConfig, Drops: true})
+	Register(&PropDef{ID: "C05b", Run: runC05b, Drops: true})
 	Register(&PropDef{ID: "C18", Run: seqOrLin(seqC18, linMeta), Config: seqOrLinConfig})
 	Register(&PropDef{ID: "LIN", Run: func(c *Ctx) { runLin(c, linFlavour(c.Gen.Intn(3))) }})
 	Register(&PropDef{ID: "C10", Run: func(c *Ctx) { runSeq(c, seqC10) }, Config: seqConfig})
